@@ -214,6 +214,14 @@ class C20(vlib.Driver):
         add(loop="maoff", algo="MADDPG", num_envs=2, learn_step=2, evo_steps=8, max_steps=16, budgets=[16, 20, 24, 24])
         add(loop="maon", algo="IPPO", num_envs=2, learn_step=4, evo_steps=8, max_steps=32, budgets=[32, 48, 40])
         add(loop="maon", algo="IPPO", num_envs=0, learn_step=3, evo_steps=6, max_steps=12, budgets=[12, 13, 36], pop=3, evo=True, mut="hp")
+        #     round 5: the numeric type of reward / done flags / observations differs from step to step (float, np.float32,
+        #     np.float64, int; bool vs np.bool_ / int8 arrays; float64 observations), plain and vectorised
+        add(loop="off", algo="DQN", mixed=True, num_envs=0, learn_step=1, evo_steps=8, max_steps=16)
+        add(loop="off", algo="Rainbow DQN", mixed=True, memory="per+nstep", n_step=2, num_envs=2, learn_step=2, evo_steps=8, max_steps=16)
+        add(loop="off", algo="TD3", mixed=True, num_envs=2, learn_step=1, evo_steps=8, max_steps=16, evo=True, mut="none")
+        add(loop="on", algo="PPO", mixed=True, num_envs=0, learn_step=3, evo_steps=6, max_steps=12)
+        add(loop="on", algo="PPO", mixed=True, num_envs=2, act="box", learn_step=4, evo_steps=8, max_steps=16)
+        add(loop="offline", algo="CQN", mixed=True, num_envs=0, evo_steps=3, max_steps=6)
         #     round 4: ONE TournamentSelection / Mutations object reused for a SECOND population whose indices are larger and
         #     not contiguous (a population that evolved elsewhere); distinct indices after every generation
         add(loop="off", algo="DQN", pop=4, evo=True, mut="none", elitism=True, max_steps=8, tour_eval_loop=3,
@@ -569,6 +577,9 @@ class C20(vlib.Driver):
                     out.append(Violation("evaluation", f"evaluation:{tag}:episodes",
                                          f"generation {gi}: {d['eval_resets']} evaluation episodes for {npop} agents with eval_loop={case.get('eval_loop', 1)}"))
                     break
+        for what in obs.get("args_changed", []):
+            out.append(Violation("arguments-modified", f"arguments-modified:{tag}:{what.split(' ')[0].split(':')[-1]}",
+                                 f"the caller's {what} was modified by the call"))
         for rl in obs.get("reloaded", []):
             saved = None
             for d in gens:
@@ -670,6 +681,7 @@ class C20(vlib.Driver):
                 f"memory={case.get('memory', 'uniform') if case['loop'] == 'off' else '-'}",
                 f"evolution={case.get('mut') if case.get('evo') else 'off'}", f"checkpoint={'on' if case.get('checkpoint') else 'off'}",
                 f"obs={'image+swap_channels' if case.get('image') else 'dict' if case.get('dictobs') else 'vector'}",
+                f"step-types={'mixed' if case.get('mixed') else 'uniform'}",
                 f"generations={min(len(obs.get('gens', [])), 5)}{'+' if len(obs.get('gens', [])) > 5 else ''}",
                 f"completed={bool(obs.get('completed')) and not obs.get('error')}"]
         labs += [f"calls={len(case.get('budgets') or [0]) + (1 if case.get('second') else 0)}",
